@@ -808,7 +808,9 @@ class Model:
             return mymemo[normalized_arg]
         else:
             result = self.equations[equation](normalized_arg)
-            mymemo[normalized_arg] = result
+            # another simulation thread may have stored a value meanwhile: the first stored value wins,
+            # so that every consumer of (equation, time) sees one and the same value
+            result = mymemo.setdefault(normalized_arg, result)
 
         return result
 
